@@ -59,11 +59,11 @@ def focus_configs(info, tier, setname="gen"):
     for v in names:
         others = [n for n in names if n != v]
         ctxs = [()]
-        if setname == "gen" or tier == "thorough":
+        if setname == "gen" or (tier == "thorough" and setname != "core3"):
             ctxs += [(o,) for o in others]
         if len(others) > 1 or (others and setname != "gen"):
             ctxs.append(tuple(others))
-        if tier == "thorough":
+        if tier == "thorough" and setname == "gen":
             ctxs += list(itertools.combinations(others, 2))
         seen = set()
         for c in ctxs:
